@@ -17,18 +17,22 @@
 (* Loads are integers; the code's 1e-12 tolerances vanish on this lattice   *)
 (* (named deviation).                                                       *)
 (***************************************************************************)
-EXTENDS Integers, Sequences, FiniteSets, SeqX, Rainflow
-CONSTANTS LawId, FixedJunction
+EXTENDS Integers, Sequences, FiniteSets, SeqX, Rainflow, TLC
+CONSTANTS LawId, FixedJunction, LawTable
+EmptyTable == [psig |-> <<>>, peps |-> <<>>, ssig |-> <<>>, seps |-> <<>>]
 
 Cube(x) == x * x * x
 Mod0(a, b) == a % b
 (* ---- the abstract law ---- *)
-PSig(L) == CASE LawId = "lin" -> L [] LawId = "cubic" -> 2 * L [] LawId = "asym" -> 2 * L
-PEps(S, L) == CASE LawId = "lin" -> L [] LawId = "cubic" -> L + Cube(L) [] LawId = "asym" -> S + Cube(L)
-SSig(dL) == CASE LawId = "lin" -> dL [] LawId = "cubic" -> 2 * dL [] LawId = "asym" -> 3 * dL
+(* LawId = "table": the law is given by the argument -> result tables recorded from a REAL law object
+   (ExtendedNeuber, SeegerBeste, Binned); keys are ToString(load), values integers in milli-MPa / nano-strain *)
+PSig(L) == CASE LawId = "lin" -> L [] LawId = "cubic" -> 2 * L [] LawId = "asym" -> 2 * L [] LawId = "table" -> LawTable.psig[ToString(L)]
+PEps(S, L) == CASE LawId = "lin" -> L [] LawId = "cubic" -> L + Cube(L) [] LawId = "asym" -> S + Cube(L) [] LawId = "table" -> LawTable.peps[ToString(L)]
+SSig(dL) == CASE LawId = "lin" -> dL [] LawId = "cubic" -> 2 * dL [] LawId = "asym" -> 3 * dL [] LawId = "table" -> LawTable.ssig[ToString(dL)]
 SEps(dS, dL) == CASE LawId = "lin" -> dL
                   [] LawId = "cubic" -> dL + (Cube(dL) \div 4)      \* Masing doubling; exact for even dL
                   [] LawId = "asym" -> dS + Cube(dL)
+                  [] LawId = "table" -> LawTable.seps[ToString(dL)]
 
 Primary(L) == LET s == PSig(L) IN [L |-> L, S |-> s, E |-> PEps(s, L)]
 Secondary(p, L) == LET dL == L - p.L  dS == SSig(dL) IN [L |-> L, S |-> p.S + dS, E |-> p.E + SEps(dS, dL)]
